@@ -16,6 +16,8 @@ PROPS = {
     "C04": engine_prop("TestC04"),
     "C05": engine_prop("TestC05"),
     "C06": engine_prop("TestC06"),
+    "C07": engine_prop("TestC07"),
+    "C08": engine_prop("TestC08"),
     "C09": engine_prop("TestC09"),
     "C11": engine_prop("TestC11"),
     "C01": {
